@@ -235,6 +235,23 @@ def run(ck, w):
     else:
         ck.ok(o)
 
+    o = ck.ob("C13.2e", "a hunk is closed only by BackupWriter::flush_group (after the combiner's entries were drained into it) and by IndexWriter::finish: "
+                        "entries held back for a combined block cannot end up in a later hunk than entries that sort after them")
+    fh_callers = set()
+    for key, b in g.bodies.items():
+        if key.startswith("bin::") or rules.is_derive_body(b):
+            continue
+        if [e for e in b.events if e.bb in b.live and e.callee != rules.POLL and (e.resolved or e.callee) == "index::write::IndexWriter::finish_hunk"]:
+            fh_callers.add(b.root)
+    want_callers = {"backup::BackupWriter::flush_group", "index::write::IndexWriter::finish"}
+    if not fh_callers:
+        ck.fail(o, "index::write::IndexWriter::finish_hunk", "anchor-missing", "finish_hunk has no caller")
+    elif fh_callers - want_callers:
+        ck.fail(o, ",".join(sorted(fh_callers - want_callers)), "hunk closed outside flush_group",
+                "finish_hunk is also called by %s, without draining the file combiner first" % sorted(fh_callers - want_callers))
+    else:
+        ck.ok(o, "callers=%s" % sorted(fh_callers))
+
     # ---- 3. tail states the true count -------------------------------------------------------------------
     fin = w.body("backup::BackupWriter::finish")
     o = ck.ob("C13.3a", "the count given to Band::close is, by identity, the value returned by IndexWriter::finish")
